@@ -128,6 +128,7 @@ type call struct {
 	kind   *ot.Kind
 	name   string
 	refs   map[string]*obs
+	protoOut interface{}
 }
 
 // obs is what one execution showed.
@@ -202,6 +203,12 @@ func (k *call) measure(pat ot.Pattern, sh ot.Shape, h history) *obs {
 	if row.Out != nil {
 		if pat.OutIs >= 0 {
 			out = in[pat.OutIs]
+			if ot.PtrAlias(in[pat.OutIs], k.protoOut) { // f(a, b, &a): shares passed by value, output by pointer
+				out, in[pat.OutIs] = ot.AddrOf(in[pat.OutIs])
+				if pat.Same != nil {
+					in[pat.Same[1]] = in[pat.OutIs]
+				}
+			}
 		} else {
 			out = row.Out.MakeOut(e, in, sh)
 			if isNilAny(out) {
@@ -387,6 +394,7 @@ func methodScenario(envName string, t *ot.Target, ri int, tier string) engine.Sc
 		if row.Out != nil {
 			protoOut = row.Out.MakeOut(e, proto, ot.ShapeExact)
 		}
+		k.protoOut = protoOut
 		pats := ot.Patterns(row, proto, protoOut, kind.Names)
 		pat := pats[c.Choose(len(pats), "alias")]
 		shapes := []ot.Shape{ot.ShapeExact}
